@@ -2,7 +2,7 @@
    bool, option, unit, prod, list, sumbool, sumor map to OCaml's; Z, positive,
    nat stay the extracted inductives.  No Extract Constant. *)
 From Coq Require Import Extraction ExtrOcamlBasic.
-From H263V Require Import base.Prelude model.Deblock model.Yuv model.Types model.Tables model.Reader model.Header model.Syntax model.F32 model.Recon model.Decoder model.Pipeline.
+From H263V Require Import base.Prelude spec.SpecRecon model.Deblock model.Yuv model.Types model.Tables model.Reader model.ReaderConcrete model.Header model.Syntax model.F32 model.Recon model.Decoder model.Pipeline.
 Separate Extraction
   Deblock.deblock Deblock.process Deblock.process_lane Deblock.annexJ Deblock.quant_to_strength
   Deblock.table_J2 Deblock.annexJ_flat Deblock.updown_ramp
@@ -13,4 +13,6 @@ Separate Extraction
   Recon.inverse_rle_block Recon.predict_candidate Recon.mv_decode Recon.halfpel_decode Recon.idct_channel
   Recon.gather_go Recon.plane_data Recon.new_plane Recon.dequant Recon.average_sum_of_mvs Recon.median_of
   Decoder.new_state Decoder.decode_next_picture Decoder.cleanup_buffers Decoder.get_last_picture
-  Decoder.get_reference_picture Decoder.next_quant Pipeline.pipeline.
+  Decoder.get_reference_picture Decoder.next_quant Pipeline.pipeline ReaderConcrete.run_ops ReaderConcrete.from_source ReaderConcrete.abs_reader
+  SpecRecon.spec_dequant SpecRecon.spec_intradc SpecRecon.zigzag_walk SpecRecon.wrap_spec SpecRecon.chroma_spec
+  SpecRecon.lerp_spec SpecRecon.spec_next_quant Recon.new_decoded Recon.idct_all_values.
